@@ -134,6 +134,16 @@ def make_dumps(R, idx):
     p = R.path("c18-%d.s390" % idx)
     dumpgen.write_s390(p, {q: dumpgen.page_bytes(q, PS) for q in range(npg)}, npg)
     d["s390"] = (p, list(range(npg)), dict(writer="write_s390", npages=npg))
+    # a SET of files: one diskdump split into 2..3 windows of frames (kdump_open_fdset)
+    spages = sorted(rng.sample(range(1, 15), rng.randint(4, 7)))
+    nsp = rng.randint(2, 3)
+    cuts = [0] + sorted(rng.sample(range(2, 14), nsp - 1)) + [16]
+    sp = []
+    for k in range(nsp):
+        q = R.path("c18-%d.split%d" % (idx, k))
+        dumpgen.write_diskdump(q, spages, max_mapnr=16, ram=range(15), split=(cuts[k], cuts[k + 1]))
+        sp.append(q)
+    d["split"] = (",".join(sp), spages, dict(writer="write_diskdump_split", pages=spages, max_mapnr=16, ram=15, cuts=cuts))
     p = R.path("c18-%d.junk" % idx)
     open(p, "wb").write(bytes(rng.getrandbits(8) | 1 for _ in range(256)) + b"\0" * 70000)
     d["junk"] = (p, [], dict(writer="junk"))
@@ -155,7 +165,7 @@ def scenarios(R, dumps, first):
         for k in slots:
             add("clone0s%d" % k, "clone0s%d {n} {t}" % k, model="clone 0 %d" % k)
             add("clonexs%d" % k, "clonexs%d {n} {t}" % k, model="clone 1 %d" % k)
-        for kind in ("str", "num", "sub", "vmci", "iter"):
+        for kind in ("str", "num", "sub", "vmci", "iter", "nfiles%d" % R.rng.randint(2, 5)):
             add("attr-" + kind, "attr {n} {t} " + kind)
         add("sysinit", "sysinit {n} {t}")
     add("clone0-elf", "clone0 {n} {t} %s %s" % (e[0], pl(e[1])), "elf")
@@ -209,6 +219,13 @@ def scenarios(R, dumps, first):
         "sadump", model="pmap")
     add("filepagemap-sadump", "getattr {n} {t} %s -1 %s 0 file.pagemap %s" % (sa[0], pl(sa[1]), pl(sa[1])), "sadump")
     add("filepagemap-elf", "getattr {n} {t} %s -1 %s 0 file.pagemap %s" % (e[0], pl(e[1]), pl(e[1])), "elf")
+    # a set of files (split diskdump): the file.set.<N> slots are created inside the call; then one file through the same object,
+    # then the set again.  Also on an object that has some slots registered already (the first NEW slot is then not slot 0).
+    spl = dumps["split"]
+    nsp = spl[0].count(",") + 1
+    one_nm, one = rng.choice([("elf", e), ("dd", dd)])
+    add("fdset-split", "fdset {n} {t} %s %d %s %s %s 0" % (spl[0], rng.choice([-1, 0]), pl(spl[1]), one[0], pl(one[1])), "split")
+    add("fdset-split-pre", "fdset {n} {t} %s -1 %s %s %s %d" % (spl[0], pl(spl[1]), one[0], pl(one[1]), rng.randint(1, nsp - 1)), "split")
     add("free-lkcd", "free {n} {t} %s 0" % lk[0], "lkcd")
     if first and R.tier != "quick":
         # a memory bitmap with more than 2 * RGN_ALLOC_INC runs: the region array is grown three times
@@ -556,6 +573,18 @@ def replay(R, path):
         elif d["writer"] == "write_sadump":
             dumpgen.write_sadump([p], {q: dumpgen.page_bytes(q, 4096) for q in d["pages"]}, ram=d["ram"], max_mapnr=d["max_mapnr"],
                                  kind=d["kind"], nr_cpus=d["nr_cpus"])
+        elif d["writer"] == "write_diskdump_split":
+            sp = []
+            for k in range(len(d["cuts"]) - 1):
+                q = R.path("replay.split%d" % k)
+                dumpgen.write_diskdump(q, d["pages"], max_mapnr=d["max_mapnr"], ram=range(d["ram"]), split=(d["cuts"][k], d["cuts"][k + 1]))
+                sp.append(q)
+            w = line.split()
+            one = R.path("replay.one")
+            ps1 = [int(x, 0) // 4096 for x in w[8].split(",")] if w[8] != "-" else []
+            dumpgen.write_elf(one, [dict(pfn=q, npages=1, voff=VOFF) for q in ps1] or [dict(pfn=1, npages=1, voff=VOFF)])
+            w[4], w[7] = ",".join(sp), one
+            line, p = " ".join(w), None
         elif d["writer"] == "write_s390":
             dumpgen.write_s390(p, {q: dumpgen.page_bytes(q, 4096) for q in range(d["npages"])}, d["npages"])
         else:
@@ -567,7 +596,8 @@ def replay(R, path):
             j = R.path("replay.junk")
             open(j, "wb").write(bytes(range(1, 256)) + b"\0" * 70000)
             line = re.sub(r" !\S+", " !" + j, line)
-        line = re.sub(r"(?<!!)/var/tmp/kdfverif\.\S+", p, line)
+        if p is not None:
+            line = re.sub(r"(?<!!)/var/tmp/kdfverif\.\S+", p, line)
     elif d and "file" in d:
         line = re.sub(r"\S*/tests/out/\S+", os.path.join(kdf.REPO, d["file"]), line)
     rc, out, err = R.run_harness(exe, stdin_text=line + "\n")
